@@ -22,7 +22,7 @@ CLAIMED["C16"] = dict(
          "converted gym space / dm_env spec; gym samples of the spec's dtype are valid. Model Base/Spec.v mirrors specs.py as written "
          "and is tied by correspondence on random specs x boundary values x every method and on every environment's real specs.",
     ref="DESIGN.md §5 C16", tech="Coq proof (induction on nested spec trees) + extracted-model correspondence")
-_ENV_NOTE = TB + " Per-environment theorems exist for the environments listed in the evidence under theorem_files; the others are covered by the generic verified checkers and listed under coverage.not_yet_modelled."
+_ENV_NOTE = TB + " Per-environment theorems exist for all 23 environments (the evidence lists the theorem_files compiled in that run; tools/coverage.py prints the matrix; cells marked p/r in DESIGN.md 6.1 contain a _partial / _refuted theorem, each explained in DESIGN.md 11). The extracted driver is cross-checked inside Coq on sampled records in every run (coverage.extraction_crosscheck)."
 CLAIMED["C01"] = dict(
     text="Every timestep emitted by every catalogued configuration of all 23 environments (reset, every step, terminal step) is validated "
          "against the environment's REAL specs by the extracted Coq `validate` (proved exact in C16); action_spec.generate_value() is a "
@@ -34,9 +34,9 @@ CLAIMED["C03"] = dict(
          "termination/truncation and satisfies them by proof.",
     ref="DESIGN.md §5 C03", tech="Coq-verified protocol checker on implementation traces + constructor lemmas", note=_ENV_NOTE)
 CLAIMED["C04"] = dict(
-    text="Per environment: theorem mask = legal for every state satisfying the reachable invariant and every action (GraphColoring so far, "
-         "more as models land), model tied to the code by replaying every transition in the extracted model; verified legal_b evaluated on "
-         "implementation states for every action.",
+    text="Per environment (all 21 environments with a mask): theorem mask = legal for every state satisfying the reachable invariant and every action "
+         "(invariant proved at reset and preserved by steps), model tied to the code by replaying every transition in the extracted model; verified "
+         "legal_b evaluated on implementation states; every action of small spaces tried on the real environment (its own reaction).",
     ref="DESIGN.md §5 C04", tech="Coq proof (invariant + mask_iff_legal) + extracted-model correspondence", note=_ENV_NOTE)
 CLAIMED["C05"] = dict(
     text="Per environment: theorem that an illegal action has exactly the documented effect; tied by correspondence on rollouts that inject "
@@ -144,7 +144,7 @@ def main():
                            kind_free_text="Coq 8.16 models + theorems; tie by regenerated Gen/*.v (translators/value dumps) and by "
                                           "differential correspondence through the extracted OCaml model")],
              checks=checks, not_applicable=na,
-             notes="See DESIGN.md. known_findings.json lists recorded/fixed defects.")
+             notes="See DESIGN.md (0.1 status, 0.2 per-property table, 8 trusted base, 11 log of fixes/findings/false alarms, 12 seeded changes). known_findings.json lists recorded findings and fix commits. VERIF_REPO=<dir> points the checks at another tree; default /repo.")
     json.dump(m, open(os.path.join(VERIF, "MANIFEST.json"), "w"), indent=1)
     print("claimed:", sorted(CLAIMED), "pending:", [x["property_id"] for x in na])
 
